@@ -3,6 +3,7 @@ package trace
 import (
 	"fmt"
 	"math/rand"
+	"reflect"
 	"runtime"
 	"strings"
 	"sync"
@@ -358,7 +359,13 @@ func RunC09(k *fw.Case, randomBody func(r *rand.Rand, id int) (string, string, m
 		k.Count("faulty_rule_sets_stop_tag_first", 1)
 	}
 	rs.Rules = append(rs.Rules, &Rule{ID: badID, Name: "bad", Sal: sal[0], HasSal: true, Fail: FailCustom, Custom: custom, SetStop: setStop})
-	for i := 0; i < 3; i++ {
+	// one case in seven: the smallest set in which "the other rules" exist at all - the faulty rule and one more
+	nHealthy := 3
+	if k.Index%7 == 5 {
+		nHealthy = 1
+		k.Count("two_rule_sets", 1)
+	}
+	for i := 0; i < nHealthy; i++ {
 		h := &Rule{ID: 10 + i, Name: fmt.Sprintf("h%d", i), Sal: sal[i+1], HasSal: true}
 		if i == 1 {
 			h.Ret, h.RetVal = RetValue, 4711
@@ -447,7 +454,9 @@ func RunC09(k *fw.Case, randomBody func(r *rand.Rand, id int) (string, string, m
 				c.Names = append(c.Names, "bad")
 			}
 		}
-		if c.Method == MDAG {
+		if c.Method == MDAG && nHealthy == 1 {
+			c.DAG = [][][]string{{{"bad"}, {"h0"}}, {{"h0", "bad"}}, {{"h0"}, {"bad"}}}[r.Intn(3)]
+		} else if c.Method == MDAG {
 			switch r.Intn(4) {
 			case 0:
 				c.DAG = [][]string{{"h0"}, {"bad", "h1"}, {"h2"}}
@@ -468,7 +477,7 @@ func RunC09(k *fw.Case, randomBody func(r *rand.Rand, id int) (string, string, m
 		reportFault(k, label, rs, c, out, fs, procs)
 		k.Distinct(label, c.Method, c.Pool)
 		// a following healthy call on the same engine / pool must be unaffected
-		hc := Call{Method: MSelCtl, B: true, Names: []string{"h2", "h0", "h1"}, Pool: e.pool}
+		hc := Call{Method: MSelCtl, B: true, Names: healthyNames(nHealthy), Pool: e.pool}
 		lg2 := NewLog()
 		out2 := t.Invoke(hc, lg2)
 		k.Eval(1)
@@ -481,6 +490,13 @@ func RunC09(k *fw.Case, randomBody func(r *rand.Rand, id int) (string, string, m
 	if k.Index%50 == 0 {
 		k.Sample(map[string]interface{}{"fault": label, "faulty_statements": custom, "entry_points": len(eps)})
 	}
+}
+
+func healthyNames(n int) []string {
+	if n == 1 {
+		return []string{"h0"}
+	}
+	return []string{"h2", "h0", "h1"}
 }
 
 func reportFault(k *fw.Case, label string, rs *RuleSet, c Call, out Outcome, fs []Finding, procs int) {
@@ -500,6 +516,25 @@ func reportFault(k *fw.Case, label string, rs *RuleSet, c Call, out Outcome, fs 
 			"rule_text": rs.Text, "call": c, "gomaxprocs": procs, "events": evString(out.Events), "err": errS, "result": fmt.Sprint(out.Result)})
 	}
 }
+
+// reEnter's method comes back into the data context of the engine target.
+type reEnter struct {
+	dc interface {
+		Add(string, interface{})
+		Get(string) (reflect.Value, error)
+		Del(...string)
+	}
+}
+
+func (r *reEnter) Put(v int64) int64 {
+	name := fmt.Sprintf("ReKey%d", v)
+	r.dc.Add(name, v)
+	r.dc.Get(name)
+	r.dc.Del(name)
+	return v
+}
+
+type reHolder struct{ In *reEnter }
 
 // growT is ranged over while its methods make it longer.
 type growT struct {
@@ -550,6 +585,9 @@ func ConcStress(k *fw.Case) {
 		}
 	}
 	b.WriteString("  }\n  return v0\nend\nrule \"other\" salience 1 begin conc { a1 = 1 a2 = a1x() } return a1 end\n")
+	// injected code that comes back into the data context it was called from (a function, a method, a
+	// three-level method that add, read and remove a name): the call returns all the same
+	b.WriteString("rule \"reenter\" salience -1 begin\n  ReFn(1)\n  ReObj.Put(2)\n  ReHold.In.Put(3)\n  rex = ReHold.In.Put(4)\n  return 1\nend\n")
 	// loops over containers that GROW while they are ranged over (through injected methods that terminate):
 	// forRange visits what was there when it started - in any case the call has to come back
 	b.WriteString("rule \"grower\" salience 0 begin\n  Grow.Reset()\n  gcnt = 0\n  forRange gi := Grow.Items {\n    Grow.More()\n    gcnt += 1\n  }\n  forRange gk := Grow.M {\n    Grow.MoreKeys()\n  }\n  forRange gj := GrowS {\n    gcnt += 1\n  }\n  return gcnt\nend\n")
@@ -569,6 +607,11 @@ func ConcStress(k *fw.Case) {
 	}
 	for n, v := range apis {
 		eng.DC.Add(n, v)
+	}
+	reent := &reEnter{dc: eng.DC}
+	for n, v := range map[string]interface{}{"ReFn": reent.Put, "ReObj": reent, "ReHold": &reHolder{In: reent}} {
+		eng.DC.Add(n, v)
+		apis[n] = v
 	}
 	pa := obs.Apis()
 	for n, v := range apis {
